@@ -72,6 +72,20 @@ empty @is_you(byte[] data) {
     writeln("end");
 }
 ''', [[], ['7'], ['104', '105'], ['1', '2', '3', '4', '5', '6', '7', '8', '9']]),
+    ('user functions named like the terminal builtins', '''
+empty all_is_win(string why) { write(why); }
+empty all_is_broken(string why) { write(why); }
+empty all_is_win(int code) { write(code); }
+empty !never(int k) { !is_defeat(); }
+empty helper(const string[] w) { write(w.length); all_is_broken("not broken"); }
+empty @is_you(const string[] w) {
+    try { if (w.length == 1) { !never(1); } write('t'); } undo { write("undone"); }
+    helper(w);
+    all_is_win(7);
+    write("the end");
+    all_is_win("still here");
+}
+''', [[], ['x'], ['x', 'y']]),
     ('strings and scalars', '''
 string gs = "";
 empty shows(string p) { write(p); writeln(p); write(p.length); }
